@@ -519,3 +519,212 @@ def r08d(ctx, rep):
             else:
                 rep.ok("R08d", key, "%s(%s, %s): the result depends on both operands" % (name, x, y), [vals[0][2]])
     rep.floor("R08d", "value-returning arms of the binary operators", n, 80)
+
+
+# ---------------------------------------------------------------------------------- C16
+
+RADIX_FMT = {"LowerHex": "std::fmt::LowerHex", "Octal": "std::fmt::Octal", "Binary": "std::fmt::Binary"}
+SIGNED = ("i8", "i16", "i32", "i64", "i128", "isize")
+
+
+def r16a(ctx, rep):
+    facts = ctx["facts"]
+    rep.rule("R16a", "no two's-complement printing: std's LowerHex/Octal/Binary for signed machine integers (and for a "
+             "Ratio of them) print the bit pattern, so a negative number prints as a huge positive one that reads back "
+             "as a different number. In <Number as LowerHex/Octal/Binary>::fmt no arm may pass a signed fixed-width "
+             "integer or fixed-width Ratio to those impls unless the arm writes the sign itself under a sign test and "
+             "formats a magnitude (unsigned type).")
+    n = 0
+    for tname, tr in RADIX_FMT.items():
+        fn = need(rep, "R16a", facts, "<marwood::number::Number as %s>::fmt" % tr)
+        if fn is None:
+            continue
+        arms = number_arms(facts, fn, unary=True)
+        for (x,), reg in sorted(arms.items()):
+            n += 1
+            rf = region_facts(fn, reg)
+            bad = []
+            for c, fa, loc, bb, t in rf["calls"]:
+                # direct `fmt::LowerHex::fmt(x, f)` or through format_args (`Argument::new_lower_hex::<T>`)
+                ty = None
+                if fa.startswith("<") and " as %s>::fmt" % tr in fa:
+                    ty = fa[1:].split(" as ")[0].lstrip("&")
+                elif "fmt::rt::Argument" in fa and fa.split("::<")[0].endswith(
+                        {"LowerHex": "new_lower_hex", "Octal": "new_octal", "Binary": "new_binary"}[tname]):
+                    ty = fa.rsplit("::<", 1)[-1].rstrip(">").lstrip("&")
+                if ty is None:
+                    continue
+                signed = ty in SIGNED or any(("Ratio<%s>" % s_) in ty for s_ in SIGNED)
+                if signed:
+                    bad.append((ty, loc, bb))
+            sign_tests = [1 for op, aty, loc, bb, s in rf["bins"] if op in ("Lt", "Gt", "Le", "Ge") and aty in SIGNED + ("f64",)]
+            sign_tests += [1 for c, fa, loc, bb, t in rf["calls"] if any(k in c for k in ("is_negative", "is_sign_negative", "signum"))]
+            key = "R16a|%s|%s" % (tname, x)
+            # the Float arm formats `abs() as i64` under a sign test: the cast target is signed but the value is a magnitude
+            if bad and not sign_tests:
+                rep.fail("R16a", key, "<Number as %s>::fmt, %s arm: passes %s to std's %s, which prints the two's-complement "
+                         "bit pattern of a negative value — the printed form reads back as a different number" % (
+                             tname, x, ", ".join(sorted({short_path(b[0]) for b in bad})), tname), [b[1] for b in bad])
+            elif bad:
+                rep.ok("R16a", key, "%s arm of %s formats a signed type but under a sign test (sign written separately)" % (x, tname),
+                       [b[1] for b in bad])
+            else:
+                rep.ok("R16a", key, "%s arm of %s formats only unsigned magnitudes / arbitrary-precision values" % (x, tname), [fn.span])
+    rep.floor("R16a", "radix formatter arms", n, 12)
+
+
+def _const_set(fn, op):
+    """set of integer constants an operand can hold if all its definitions are constants, else None"""
+    o = fn.origin(op)
+    if o[0] == "const" and "int" in o[1]:
+        return {o[1]["int"]}
+    if o[0] == "local":
+        vals = set()
+        for d in fn.defs().get(o[1], []):
+            if d[2] != "assign" or d[3]["rv"]["k"] != "use":
+                return None
+            c = op_const(d[3]["rv"]["a"])
+            if c is None or "int" not in c:
+                return None
+            vals.add(c["int"])
+        return vals or None
+    return None
+
+
+def _range_guarded(fn, op, call_bb, lo=2, hi=36):
+    """is the value of `op` (through casts) compared against lo and hi on blocks dominating call_bb?"""
+    # peel casts
+    cur = op
+    roots = []
+    for _ in range(6):
+        o = fn.origin(cur)
+        roots.append(o)
+        if o[0] == "rv" and o[1]["rv"]["k"] == "cast":
+            cur = o[1]["rv"]["a"]
+            continue
+        break
+    consts = set()
+    for bb, j, s in fn.stmts():
+        rv = s["rv"]
+        if rv["k"] == "bin" and rv["op"] in ("Le", "Lt", "Ge", "Gt") and fn.dominates(bb, call_bb):
+            for a, b in ((rv["a"], rv["b"]), (rv["b"], rv["a"])):
+                c = op_const(a)
+                if c is not None and "int" in c:
+                    ob = fn.origin(b)
+                    if any(_same_value(ob, r) or (ob[0] == r[0] == "call" and ob[1] is r[1]) for r in roots):
+                        consts.add(c["int"])
+    for bb, t in fn.calls():
+        if callee(t).endswith("::contains") and "Range" in (t.get("fnargs") or "") and fn.dominates(bb, call_bb):
+            o = fn.origin(t["args"][0])
+            if o[0] == "rv" and o[1]["rv"]["k"] == "agg":
+                for x in o[1]["rv"]["ops"]:
+                    c = op_const(x)
+                    if c is not None and "int" in c:
+                        consts.add(c["int"])
+    return (lo in consts) and (hi in consts or hi + 1 in consts)
+
+
+def _radix_ok(fn, op, at_bb, depth=0):
+    cs = _const_set(fn, op)
+    if cs is not None:
+        return all(2 <= c <= 36 for c in cs), "constant %s" % sorted(cs)
+    o = fn.origin(op)
+    if o[0] == "local" and depth < 3:
+        defs = [d for d in fn.defs().get(o[1], []) if d[2] != "partial"]
+        if defs and all(d[2] == "assign" for d in defs):
+            why = []
+            for d in defs:
+                rv = d[3]["rv"]
+                if rv["k"] in ("use", "cast"):
+                    ok, w = _radix_ok(fn, rv["a"], d[0], depth + 1)
+                    if not ok:
+                        return False, w
+                    why.append(w)
+                else:
+                    return False, "computed value"
+            return True, "; ".join(sorted(set(why)))
+    if _range_guarded(fn, op, at_bb):
+        return True, "range-checked against 2 and 36 where it is defined"
+    return False, "no range check dominates it"
+
+
+def r16b(ctx, rep):
+    facts = ctx["facts"]
+    rep.rule("R16b", "the radix reaches the parser validated: *::from_str_radix panics for a radix outside 2..=36; "
+             "every call of Number::parse_with_exactness / parse / parse_rational from outside number.rs passes a radix "
+             "that is a constant in 2..=36 (all definitions constant) or a value compared against both bounds on blocks "
+             "dominating the call.")
+    targets = {"marwood::number::Number::parse_with_exactness", "marwood::number::Number::parse",
+               "marwood::number::Number::parse_rational"}
+    n = 0
+    for p, f in sorted(facts.fns.items()):
+        if f.crate != "marwood" or p.startswith("marwood::number::"):
+            continue
+        for bb, t in f.calls():
+            if callee(t) in targets:
+                n += 1
+                radix = t["args"][-1]
+                key = "R16b|%s|radix" % f.short
+                ok, why = _radix_ok(f, radix, bb)
+                if ok:
+                    rep.ok("R16b", key, "%s passes a validated radix (%s)" % (f.short, why), [t["loc"]])
+                else:
+                    rep.fail("R16b", key, "%s passes an unvalidated radix to the number parser: from_str_radix panics for a "
+                             "radix outside 2..=36" % f.short, [t["loc"]])
+    rep.floor("R16b", "external call sites of the number parser", n, 2)
+    # and inside number.rs the radix parameter is handed on unchanged
+    k = 0
+    for p in sorted(targets):
+        f = facts.fn(p)
+        if f is None:
+            continue
+        for bb, t in f.calls():
+            if callee(t).endswith("from_str_radix"):
+                k += 1
+    rep.floor("R16b", "from_str_radix calls in number.rs", k, 5)
+
+
+def r16c(ctx, rep):
+    from . import tables
+    facts = ctx["facts"]
+    rep.rule("R16c", "prefix / radix tables agree: parse_number maps #b #o #d #x to 2 8 10 16, and number->string selects "
+             "the Binary / Octal / LowerHex formatter for exactly 2 / 8 / 16 (anything else prints decimal).")
+    pn = need(rep, "R16c", facts, "marwood::parse::parse_number")
+    if pn is not None:
+        got = {}
+        for sconst, bb, t in tables.str_eq_consts(pn):
+            # the switch on the eq result: true edge
+            sw = pn.blocks[t["target"]]["term"] if t["target"] is not None else None
+            if not sw or sw["k"] != "switch":
+                continue
+            tru = sw["otherwise"]
+            for s in pn.blocks[tru]["stmts"]:
+                c = op_const(s["rv"].get("a")) if s["rv"]["k"] == "use" else None
+                if c is not None and "int" in c and c.get("ty") == "u32":
+                    got[sconst] = c["int"]
+        want = {"#b": 2, "#o": 8, "#d": 10, "#x": 16}
+        for k_, v in want.items():
+            key = "R16c|parse_number|%s" % k_
+            if got.get(k_) == v:
+                rep.ok("R16c", key, "%s selects radix %d" % (k_, v), [pn.span])
+            else:
+                rep.fail("R16c", key, "prefix %s selects radix %s, expected %d: a literal with this prefix denotes a different "
+                         "number than string->number gives its spelling" % (k_, got.get(k_), v), [pn.span])
+    ns = need(rep, "R16c", facts, "marwood::vm::builtin::number::number_string")
+    if ns is not None:
+        sel = {}
+        for bb, b in enumerate(ns.blocks):
+            t = b["term"]
+            if t["k"] == "switch" and t.get("opty") in ("usize", "u32", "u64") and len(t["targets"]) >= 2:
+                for v, tg in t["targets"]:
+                    calls, _ = tables.arm_effects(ns, tg, stop={x for _, x in t["targets"] if x != tg} | {t["otherwise"]}, limit=8)
+                    for c in calls:
+                        for nm, ctor in (("LowerHex", "new_lower_hex"), ("Octal", "new_octal"), ("Binary", "new_binary"), ("Display", "new_display")):
+                            if c.endswith(ctor):
+                                sel.setdefault(v, nm)
+        want = {16: "LowerHex", 8: "Octal", 2: "Binary"}
+        for v, nm in want.items():
+            key = "R16c|number_string|%d" % v
+            (rep.ok if sel.get(v) == nm else rep.fail)(
+                "R16c", key, "radix %d prints with %s" % (v, nm) if sel.get(v) == nm else
+                "radix %d prints with %s, expected %s" % (v, sel.get(v), nm), [ns.span])
